@@ -1,8 +1,11 @@
-"""C16 - bounded stand-in (see checks/c16_bounded.py)."""
+"""C16 - the two edge views under contract (pyvc) + bounded stand-in for precompute as a whole (checks/c16_bounded.py)."""
 from checks._simple import run_simple
+
+PROVED_TARGETS = ["cascade.low.views:dependants", "cascade.low.views:param_source"]
 
 
 def run(tier, seed):
-    return run_simple("C16", tier, seed, "checks.c16_bounded", [],
-                      explanation="real library code on exhaustively enumerated DAGs compared with an independent reference",
+    return run_simple("C16", tier, seed, "checks.c16_bounded", PROVED_TARGETS,
+                      explanation="views.dependants / views.param_source proved against 'exactly as the job's edges state'; decompose/enrich (work-list loops) on exhaustively "
+                                  "enumerated DAGs compared with an independent reference",
                       assumptions=["networkx / the harness's own reference model are trusted as the specification's executable form"])
